@@ -154,9 +154,9 @@ func runCase(r *engine.Run, im *objdrv.Impl, c callCase) {
 		return
 	}
 	src := c.source()
-	r.Begin(key)
+	objdrv.Begin(r, key)
 	obs := observe(im, src, c.rc.post)
-	r.End()
+	objdrv.End()
 	exp := c.expect(om.Quirks{})
 	compare(r, key, src, exp, obs, c.trivial, func(aux map[string]string) {
 		aux["method"] = c.method
